@@ -29,7 +29,17 @@ type faultStore struct {
 	commits int
 	dead    bool
 	inflate int
-	hook    func(n int, s *faultStore)
+	// write-failure injection: the failAt-th commit ATTEMPT returns an error and writes nothing
+	// (failAll: so does every later one). A failed attempt is not a commit.
+	attempts int
+	failAt   int
+	failAll  bool
+	failed   int
+	// pre (if set) is asked before every commit attempt; true = this attempt fails
+	pre func() bool
+	// onFail (if set) is called (commit lock held) whenever an attempt fails
+	onFail func()
+	hook   func(n int, s *faultStore)
 	// commit kinds for the histogram
 	kinds map[string]int
 	// reads counts Get calls; readHook (if set) is called with the running number, outside any lock
@@ -46,6 +56,7 @@ func (s *faultStore) Get(key []byte, cb func([]byte) error) error {
 }
 
 var errDead = errors.New("verif: store is dead (simulated crash)")
+var errInjected = errors.New("verif: injected write failure (disk full / I/O error)")
 
 func newFaultStore(d *memory.Database) *faultStore {
 	return &faultStore{Database: d, kinds: map[string]int{}}
@@ -57,6 +68,14 @@ func (s *faultStore) commit(kind string, f func() error) error {
 	defer s.mu.Unlock()
 	if s.dead {
 		return errDead
+	}
+	s.attempts++
+	if (s.pre != nil && s.pre()) || (s.failAt > 0 && (s.attempts == s.failAt || (s.failAll && s.attempts > s.failAt))) {
+		s.failed++
+		if s.onFail != nil {
+			s.onFail()
+		}
+		return errInjected
 	}
 	if err := f(); err != nil {
 		return err
